@@ -8,7 +8,8 @@ import re
 
 from . import common
 
-PROOFS = ["proofs/CacheStepsProofs.v", "models/CacheSteps.v"]
+PROOFS = ["proofs/CacheStepsProofs.v", "models/CacheSteps.v",
+          "proofs/CacheStepsFullProofs.v", "models/CacheStepsFull.v"]
 
 # set-ups of key 0 (E = 1 h, error E = 20 min; ages far from every boundary)
 INITS = {
@@ -282,16 +283,30 @@ def nontrivial(case, model):
     return len(tids) >= 2
 
 
+def classify_full(model):
+    """verdict of the machine with the refined ghost (CacheStepsFull.v, theorem cache_calls_linearize:
+    all five operations): None when absent (Orig order), else ok / tick-in-window / violation"""
+    _, g = split_model(model)
+    g = " " + g
+    if " fmis=" not in g:
+        return None
+    if " fsame=1" not in g or " fsim=1" not in g:
+        return "violation"
+    if " fmis=0" in g:
+        return "ok"
+    return "violation" if " fbad=0" in g else "tick-in-window"
+
+
 def classify(case, model):
     """ghost verdict of the model run: ok / outside the hypotheses / NOT linearized inside them"""
     _, g = split_model(model)
-    if "mis=0" in g:
+    if " mis=0" in " " + g:
         return "ok"
     ops, m = prog_ops(case)
     covered = all(o[0] in COVERED for o in ops) and "S" not in m.get("init", "")
-    if covered and "bad=0" in g:
+    if covered and " bad=0" in " " + g:
         return "violation"
-    if not covered and "bad=0" in g:
+    if not covered and " bad=0" in " " + g:
         return "set-or-sweep"
     return "tick-in-window"
 
@@ -319,6 +334,7 @@ def run(chk, corpus, light=False):
         return
     model = common.run_model(cases)
     verdicts = {}
+    full_verdicts = {}
     examples = {}
     seen = set()
     for name, c, m, i in zip(names, cases, model, impl):
@@ -342,10 +358,19 @@ def run(chk, corpus, light=False):
                              "(no Set, no sweep, no clock tick inside a window): " + split_model(m)[1])
         elif v == "set-or-sweep" and note is None and any(k == "call-steps-set-nonatomic" for k, _ in chk.opens):
             chk.monitor_fail("call-steps-set-nonatomic", c, i, split_model(m)[1])
+        vf = classify_full(m)
+        if vf is not None:
+            full_verdicts[vf] = full_verdicts.get(vf, 0) + 1
+            if vf == "violation" and note is None:
+                chk.monitor_fail("call-not-linearizable-full", c, i,
+                                 "a call result (programs over Load/Get2/Set/worker/sweep) is not the refined atomic "
+                                 "machine's output at any instant of the call, or the refined machine left the steps of "
+                                 "CacheSteps.v / its history is not simulated by Cache.v: " + split_model(m)[1])
         if name not in seen:
             seen.add(name)
             chk.sample(dict(stream=name, case=c[:300], model=m[:300], impl=i[:300]), limit=16)
     info["ghost_verdicts"] = verdicts
+    info["refined_ghost_verdicts_all_ops"] = full_verdicts
     info["examples_outside_hypotheses"] = examples
     info["cases"] = len(cases)
 
